@@ -144,6 +144,12 @@ func genTreeEnv(r *core.Rng, dir string) (*TreeEnv, []string) {
 		add(g2+"/src/caseb/b.go", goSrc)
 		remote = append(remote, "/home/User/go/src/casea/a.go", "/home/user/go/src/caseb/b.go")
 	}
+	if r.Chance(0.5) {
+		// a vendored dependency (also one vendored inside a vendored one)
+		add(g2+"/src/ven/vendor/github.com/v/w/x.go", goSrc)
+		add(g2+"/src/ven/vendor/github.com/v/w/vendor/example.org/z/z.go", goSrc)
+		remote = append(remote, "/r4/src/ven/vendor/github.com/v/w/x.go", "/r4/src/ven/vendor/github.com/v/w/vendor/example.org/z/z.go")
+	}
 	remote = append(remote, "/nowhere/else/file.go")
 	return ex, remote
 }
